@@ -36,6 +36,22 @@
 #include "celeritas/phys/PhysicsStepUtils.hh"
 #include "celeritas/phys/PhysicsTrackView.hh"
 
+#include <memory>
+
+#include "corecel/data/CollectionStateStore.hh"
+#include "corecel/sys/ActionRegistry.hh"
+#include "celeritas/Constants.hh"
+#include "celeritas/grid/ValueGridBuilder.hh"
+#include "celeritas/grid/ValueGridInserter.hh"
+#include "celeritas/mat/MaterialParams.hh"
+#include "celeritas/mat/MaterialTrackView.hh"
+#include "celeritas/phys/Model.hh"
+#include "celeritas/phys/PDGNumber.hh"
+#include "celeritas/phys/ParticleParams.hh"
+#include "celeritas/phys/PhysicsParams.hh"
+#include "celeritas/phys/PhysicsStepView.hh"
+#include "celeritas/phys/Process.hh"
+
 #include "common/lineio.hh"
 
 using namespace celeritas;
@@ -48,9 +64,18 @@ using HostItems = Collection<T, Ownership::value, MemSpace::host>;
 template<class T>
 using HostCItems = Collection<T, Ownership::const_reference, MemSpace::host>;
 
+//! how a slot was made by a real builder (needed to rebuild it inside PhysicsParams)
+struct BuildSpec
+{
+    int kind{0};  // 0 none, 1 ValueGridXsBuilder, 2 ValueGridLogBuilder
+    double emin{}, eprime{}, emax{};
+    vecd values;
+};
+
 struct XsSlot
 {
     bool set{false};
+    BuildSpec spec;
     XsGridData data;
     vecd words;
     size_type off{0};
@@ -320,6 +345,213 @@ static string do_gengrid(std::vector<string> const& w)
     return "ok";
 }
 
+
+//---------------------------------------------------------------------------//
+// Tables built through the REAL ValueGridXsBuilder / ValueGridLogBuilder + ValueGridInserter
+static string do_build(std::vector<string> const& w, bool xs)
+{
+    // xsbuild S emin eprime emax n xs...   |   logbuild S emin emax n v...
+    std::size_t const nhead = xs ? 6 : 5;
+    if (w.size() < nhead)
+        return "bad-op";
+    size_type k, n;
+    vecd e;
+    if (!parse_dec(w[1], &k) || !parse_all(w, 2, nhead - 1, &e) || !parse_dec(w[nhead - 1], &n))
+        return "bad-op";
+    vecd vals;
+    if (!parse_all(w, nhead, w.size(), &vals))
+        return "bad-op";
+    double emin = e[0], eprime = xs ? e[1] : e[0], emax = xs ? e[2] : e[1];
+    if (!(k < 8 && n >= 2 && vals.size() == n && emin > 0.0 && emax > eprime
+          && (xs ? eprime >= emin : emax > emin)))
+        return "bad-op";
+    XsSlot& s = xs_slots[k];
+    s = XsSlot{};
+    s.set = true;
+    s.spec.kind = xs ? 1 : 2;
+    s.spec.emin = emin;
+    s.spec.eprime = eprime;
+    s.spec.emax = emax;
+    s.spec.values = vals;
+    HostItems<XsGridData> grids;
+    ValueGridInserter insert(&s.reals, &grids);
+    ValueGridInserter::XsIndex id;
+    if (xs)
+        id = ValueGridXsBuilder(emin, eprime, emax, vals).build(insert);
+    else
+        id = ValueGridLogBuilder(emin, emax, vals).build(insert);
+    s.data = grids[id];
+    s.off = s.data.value.begin()->unchecked_get();
+    s.words.assign(s.reals[AllItems<real_type, MemSpace::host>{}].begin(),
+                   s.reals[AllItems<real_type, MemSpace::host>{}].end());
+    s.ref = s.reals;
+    return "ok " + vh::hexd(s.data.log_energy.delta) + " " + std::to_string(s.data.prime_index);
+}
+
+//---------------------------------------------------------------------------//
+// A real PhysicsParams with one process whose step-limit tables come from builder specs
+class HModel final : public Model
+{
+  public:
+    HModel(ActionId id, Applicability a) : id_(id), applic_(a) {}
+    SetApplicability applicability() const final { return {applic_}; }
+    MicroXsBuilders micro_xs(Applicability) const final { return {}; }
+    void step(CoreParams const&, CoreStateHost&) const final {}
+    void step(CoreParams const&, CoreStateDevice&) const final {}
+    ActionId action_id() const final { return id_; }
+    std::string_view label() const final { return "h-model"; }
+    std::string_view description() const final { return "harness model"; }
+
+  private:
+    ActionId id_;
+    Applicability applic_;
+};
+
+class TableProcess final : public Process
+{
+  public:
+    TableProcess(BuildSpec m, BuildSpec l, BuildSpec r) : m_(m), l_(l), r_(r) {}
+    VecModel build_models(ActionIdIter start_id) const final
+    {
+        Applicability a;
+        a.particle = ParticleId{0};
+        a.lower = units::MevEnergy{m_.emin};
+        a.upper = units::MevEnergy{m_.emax};
+        return {std::make_shared<HModel>(*start_id++, a)};
+    }
+    StepLimitBuilders step_limits(Applicability) const final
+    {
+        StepLimitBuilders b;
+        b[ValueGridType::macro_xs] = make(m_);
+        b[ValueGridType::energy_loss] = make(l_);
+        b[ValueGridType::range] = make(r_);
+        return b;
+    }
+    bool use_integral_xs() const final { return false; }
+    std::string_view label() const final { return "h-process"; }
+
+  private:
+    static UPConstGridBuilder make(BuildSpec const& s)
+    {
+        if (s.kind == 1)
+            return std::make_unique<ValueGridXsBuilder>(s.emin, s.eprime, s.emax, s.values);
+        return std::make_unique<ValueGridLogBuilder>(s.emin, s.emax, s.values);
+    }
+    BuildSpec m_, l_, r_;
+};
+
+struct PhysProblem
+{
+    std::shared_ptr<MaterialParams> mats;
+    std::shared_ptr<ParticleParams> pars;
+    std::unique_ptr<ActionRegistry> reg;
+    std::shared_ptr<PhysicsParams> phys;
+    CollectionStateStore<MaterialStateData, MemSpace::host> mat_state;
+    CollectionStateStore<ParticleStateData, MemSpace::host> par_state;
+    CollectionStateStore<PhysicsStateData, MemSpace::host> phys_state;
+};
+static std::unique_ptr<PhysProblem> phys_problem;
+
+static string do_physbuild(std::vector<string> const& w)
+{
+    if (w.size() != 8)
+        return "bad-op";
+    XsSlot* m = xs_slot(w[1]);
+    XsSlot* l = xs_slot(w[2]);
+    XsSlot* r = xs_slot(w[3]);
+    vecd a;
+    if (!m || !l || !r || !m->spec.kind || !l->spec.kind || !r->spec.kind
+        || !parse_all(w, 4, 8, &a))
+        return "bad-op";
+    double lim = a[0], rho = a[1], alpha = a[2], fixed = a[3];
+    auto same = [](double x, double y) { return vh::dbl_bits(x) == vh::dbl_bits(y); };
+    if (!(same(m->data.log_energy.front, l->data.log_energy.front)
+          && same(l->data.log_energy.front, r->data.log_energy.front)
+          && same(m->data.log_energy.back, l->data.log_energy.back)
+          && same(l->data.log_energy.back, r->data.log_energy.back) && lim > 0.0 && lim <= 1.0
+          && rho > 0.0 && alpha > 0.0 && fixed >= 0.0 && l->spec.kind == 2 && r->spec.kind == 2))
+        return "bad-op";
+    auto p = std::make_unique<PhysProblem>();
+    {
+        MaterialParams::Input inp;
+        inp.elements = {{AtomicNumber{1}, units::AmuMass{1.0}, {}, "h"}};
+        inp.materials.push_back(
+            {1e20, 300, MatterState::gas, {{ElementId{0}, 1.0}}, "mat"});
+        p->mats = std::make_shared<MaterialParams>(std::move(inp));
+    }
+    {
+        ParticleParams::Input inp;
+        inp.push_back({"celeriton",
+                       PDGNumber{1337},
+                       units::MevMass{1},
+                       units::ElementaryCharge{1},
+                       constants::stable_decay_constant});
+        p->pars = std::make_shared<ParticleParams>(std::move(inp));
+    }
+    p->reg = std::make_unique<ActionRegistry>();
+    PhysicsParams::Input pin;
+    pin.particles = p->pars;
+    pin.materials = p->mats;
+    pin.action_registry = p->reg.get();
+    pin.options.linear_loss_limit = lim;
+    pin.options.min_range = rho;
+    pin.options.max_step_over_range = alpha;
+    pin.options.fixed_step_limiter = fixed;
+    pin.processes.push_back(std::make_shared<TableProcess>(m->spec, l->spec, r->spec));
+    p->phys = std::make_shared<PhysicsParams>(std::move(pin));
+    p->mat_state = decltype(p->mat_state)(p->mats->host_ref(), 1);
+    p->par_state = decltype(p->par_state)(p->pars->host_ref(), 1);
+    p->phys_state = decltype(p->phys_state)(p->phys->host_ref(), 1);
+    {
+        MaterialTrackView mat(p->mats->host_ref(), p->mat_state.ref(), TrackSlotId{0});
+        mat = MaterialTrackView::Initializer_t{MaterialId{0}};
+        ParticleTrackView par(p->pars->host_ref(), p->par_state.ref(), TrackSlotId{0});
+        ParticleTrackView::Initializer_t pi;
+        pi.particle_id = ParticleId{0};
+        pi.energy = units::MevEnergy{1};
+        par = pi;
+        PhysicsTrackView phys(
+            p->phys->host_ref(), p->phys_state.ref(), ParticleId{0}, MaterialId{0}, TrackSlotId{0});
+        phys = PhysicsTrackView::Initializer_t{};
+    }
+    phys_problem = std::move(p);
+    return "ok";
+}
+
+//! one step of the same track slot: calc_physics_step_limit, then calc_mean_energy_loss
+static string do_pstep(std::vector<string> const& w)
+{
+    vecd a;
+    if (w.size() != 4 || !phys_problem || !parse_all(w, 1, 4, &a))
+        return "bad-op";
+    double e = a[0], mfp = a[1], frac = a[2];
+    if (!(e > 0.0 && mfp > 0.0 && frac > 0.0 && frac <= 1.0))
+        return "precond";
+    auto& p = *phys_problem;
+    MaterialTrackView mat(p.mats->host_ref(), p.mat_state.ref(), TrackSlotId{0});
+    ParticleTrackView par(p.pars->host_ref(), p.par_state.ref(), TrackSlotId{0});
+    par.energy(units::MevEnergy{e});
+    PhysicsTrackView phys(
+        p.phys->host_ref(), p.phys_state.ref(), ParticleId{0}, MaterialId{0}, TrackSlotId{0});
+    PhysicsStepView pstep(p.phys->host_ref(), p.phys_state.ref(), TrackSlotId{0});
+    phys.interaction_mfp(mfp);
+    StepLimit lim = calc_physics_step_limit(mat, par, phys, pstep);
+    auto const& sc = p.phys->host_ref().scalars;
+    string act = lim.action == sc.range_action()      ? "r"
+                 : lim.action == sc.discrete_action() ? "d"
+                 : (sc.fixed_step_action && lim.action == sc.fixed_step_action) ? "f"
+                                                                               : "?";
+    auto const& st = p.phys_state.ref().state[TrackSlotId{0}];
+    string out = vh::hexd(lim.step) + " " + act + " " + vh::hexd(st.dedx_range) + " "
+                 + vh::hexd(st.macro_xs);
+    double s = frac * lim.step;
+    if (s > 0.0)
+        out += " " + vh::hexd(calc_mean_energy_loss(par, phys, s).value());
+    else
+        out += " nostep";
+    return out;
+}
+
 static string handle(std::vector<string> const& w)
 {
     if (w.empty())
@@ -342,6 +574,14 @@ static string handle(std::vector<string> const& w)
         return do_xsgrid(w);
     if (op == "gengrid")
         return do_gengrid(w);
+    if (op == "xsbuild")
+        return do_build(w, true);
+    if (op == "logbuild")
+        return do_build(w, false);
+    if (op == "physbuild")
+        return do_physbuild(w);
+    if (op == "pstep")
+        return do_pstep(w);
     if (op == "ugat" && w.size() == 3)
     {
         XsSlot* s = xs_slot(w[1]);
@@ -492,7 +732,14 @@ int main()
     string line;
     while (std::getline(std::cin, line))
     {
-        std::cout << handle(vh::words(line)) << "\n";
+        try
+        {
+            std::cout << handle(vh::words(line)) << "\n";
+        }
+        catch (std::exception const& e)
+        {
+            std::cout << "exception\n";
+        }
     }
     return 0;
 }
